@@ -14,25 +14,29 @@ def thread(th):
 
 
 def geometry(sc, cfg):
-    """(P, R, RQ, Kind, NeedHead) of a single-transfer scenario inside the
-    model's scope, or None."""
+    """(P, R, RQ, Kind, NeedHead, Src, UW) of a single-transfer scenario inside
+    the model's scope, or None."""
     ts = sc['transfers']
     if len(ts) != 1:
         return None
     t = ts[0]
     kind = t.get('kind')
+    uw = cfg['up_chunks']
     if kind == 'delete':
-        return (0, cfg['R'], cfg['RQ'], 'delete', False)
+        return (0, cfg['R'], cfg['RQ'], 'delete', False, 'path', uw)
+    head, src = False, 'path'
     if kind == 'copy':
         head = not any(s.get('provide_size') is not None for s in t.get('subs') or [])
-    elif kind != 'upload' or t.get('src', 'path') != 'path':
+    elif kind != 'upload':
         return None
-    else:
-        head = False
+    elif t.get('src', 'path') != 'path':
+        src = 'stream'
     size, thr, chunk = t['size'], cfg['threshold'], cfg['chunk']
     if size < thr:
-        return (0, cfg['R'], cfg['RQ'], kind, head)
-    return (-(-size // chunk), cfg['R'], cfg['RQ'], kind, head)
+        if src == 'stream':
+            return None        # single put from a file object: not modelled
+        return (0, cfg['R'], cfg['RQ'], kind, head, src, uw)
+    return (-(-size // chunk), cfg['R'], cfg['RQ'], kind, head, src, uw)
 
 
 def dl_geometry(sc, cfg):
@@ -62,6 +66,7 @@ def project(events, chunk=2):
     cbq_fault = False
     wfault = False
     seq_rs = {}
+    srcf = set()
     for e in events:
         k = e.get('e')
         th = thread(e.get('th'))
@@ -116,6 +121,11 @@ def project(events, chunk=2):
             out.append({'k': 'Status', 'th': th, 'st': e.get('status')})
         elif k == 'FaultInjected' and e.get('on') == 'on_queued':
             cbq_fault = True
+        elif k == 'FaultInjected' and e.get('on') == 'src_read':
+            if th == 'sub':
+                out.append({'k': 'SrcFault', 'th': th})
+            else:
+                srcf.add(th)
         elif k in ('CbBegin', 'CbEnd') and e.get('cb') in ('queued', 'done'):
             r = {'k': k, 'th': th, 'cb': e['cb'], 'ok': True}
             if k == 'CbEnd' and e['cb'] == 'queued':
@@ -132,7 +142,9 @@ def project(events, chunk=2):
             oc = 'ok' if oc == 'ok' else ('fault-after' if oc.startswith('fault-after') else
                                           'fault' if oc.startswith('fault') else
                                           'body-error' if oc.startswith('body-error') else oc)
-            out.append({'k': k, 'th': th, 'op': e['op'], 'oc': oc})
+            out.append({'k': k, 'th': th, 'op': e['op'], 'oc': oc,
+                        'srcf': oc == 'body-error' and th in srcf})
+            srcf.discard(th)
         elif k == 'SetResult':
             out.append({'k': k, 'th': th, 'st': e.get('status')})
         elif k == 'SetExc':
@@ -153,6 +165,6 @@ def project(events, chunk=2):
     for r in out:
         for f, d in (('st', ''), ('task', ''), ('op', ''), ('oc', ''), ('ek', ''),
                      ('cb', ''), ('ok', True), ('part', 0), ('inflight', 0),
-                     ('data', False), ('retryable', False)):
+                     ('data', False), ('retryable', False), ('srcf', False)):
             r.setdefault(f, d)
     return out
